@@ -361,6 +361,59 @@ func debugModel(L *Loaded, frs []*FuncResult, or *OblResult, work string) {
 		atoms = append(atoms, t)
 	}
 	rec(goal, 0)
+	// quantified facts instantiated at the goal's skolem constants: a false one is a missing instance
+	var sks []*Term
+	{
+		vis := map[*Term]bool{}
+		var find func(t *Term)
+		find = func(t *Term) {
+			if vis[t] {
+				return
+			}
+			vis[t] = true
+			if t.Op == "const" && strings.HasPrefix(t.Name, "sk_") && t.Sort == SBV64 {
+				sks = append(sks, t)
+			}
+			for _, a := range t.Args {
+				find(a)
+			}
+		}
+		find(goal)
+	}
+	var instOf func(f *Term, sk *Term) []*Term
+	instOf = func(f *Term, sk *Term) []*Term {
+		switch f.Op {
+		case "and":
+			var out []*Term
+			for _, a := range f.Args {
+				out = append(out, instOf(a, sk)...)
+			}
+			return out
+		case "=>":
+			var out []*Term
+			for _, x := range instOf(f.Args[1], sk) {
+				out = append(out, e.tb.Implies(f.Args[0], x))
+			}
+			return out
+		case "forall":
+			if len(f.Bnd) == 1 && f.Bnd[0].Sort == SBV64 {
+				return []*Term{e.tb.Subst(f.Args[0], map[*Term]*Term{f.Bnd[0]: sk})}
+			}
+		}
+		return nil
+	}
+	for _, f := range e.relevantFacts(fr, or.O) {
+		if !hasQuant(f) {
+			continue
+		}
+		for _, sk := range sks {
+			for _, in := range instOf(f, sk) {
+				if !in.open && len(atoms) < 200 {
+					atoms = append(atoms, in)
+				}
+			}
+		}
+	}
 	atoms = append(atoms, fr.Params...)
 	script := e.tb.Script(q, atoms, false)
 	f := writeScript(work, or.O.Name+".dbg", script)
